@@ -100,11 +100,19 @@ LEVEL_TEXT = ("proof (model) + correspondence on artist data; Voronoi polygon ge
               "oracle-checked / trusted, see PARTIAL")
 
 CMAP = "magma"
+# content patterns, cycled per stratum so that every run covers each of them
+CELL_PATTERNS = ["one", "sparse", "full", "sparse", "equal", "empty", "sparse"]
+POINT_PATTERNS = ["one", "many", "few", "many", "equal"]
 
 # --------------------------------------------------------------------------
 # helpers
 
 _DRV = [None]
+STATS = {}
+
+
+def stat(key, k=1):
+    STATS[key] = STATS.get(key, 0) + k
 
 
 def drv():
@@ -369,6 +377,9 @@ def judge(oracle, corr):
 def call_both(fn, archive, variant, kwargs, read, where, vmin, vmax):
     """Runs `fn` with the archive and with df=archive.data(pandas). Returns (obs, Failure|None)."""
     warnings.simplefilter("ignore")
+    stat(f"plots:{fn.__name__}", 2)
+    stat("variant:" + ("default-limits" if vmin is None and vmax is None else
+                       "explicit-limits" if vmin is not None and vmax is not None else "one-sided-limits"))
     base_sum = archive_sum(archive)
     out = []
     for use_df in (False, True):
@@ -408,7 +419,7 @@ def call_both(fn, archive, variant, kwargs, read, where, vmin, vmax):
 # grid heat-maps
 
 
-def gen_grid(rng, one_d):
+def gen_grid(rng, one_d, pattern=None):
     if one_d:
         dims = [rng.randint(1, 8)]
     else:
@@ -417,8 +428,7 @@ def gen_grid(rng, one_d):
     widths = [rng.choice([1, 1.5, 2, 3, 4]), rng.choice([1, 2.5, 5, 6])][:len(dims)]
     cells = [[i] for i in range(dims[0])] if one_d else [[i, j] for i in range(dims[0]) for j in range(dims[1])]
     rng.shuffle(cells)
-    pattern = rng.choice(["one", "one", "sparse", "sparse", "sparse", "full", "equal", "empty"] if one_d else
-                         ["one", "sparse", "sparse", "sparse", "full", "equal", "empty"])
+    pattern = pattern or rng.choice(CELL_PATTERNS)
     if pattern == "one":
         chosen = cells[:1]
     elif pattern == "full":
@@ -527,7 +537,7 @@ def run_grid(case):
 # CVT heat-maps
 
 
-def gen_cvt1(rng):
+def gen_cvt1(rng, pattern=None):
     n = rng.choice([2, 2, 3, 4, 5, 8, 13, 21, 30]) if rng.random() < 0.7 else rng.randint(2, 30)
     lo = dy(rng, -8, 0, 4)
     width = rng.choice([1, 2, 4, 8])
@@ -536,7 +546,7 @@ def gen_cvt1(rng):
     cents = [lo + p / den for p in pts]
     idx = list(range(n))
     rng.shuffle(idx)
-    pattern = rng.choice(["one", "sparse", "sparse", "sparse", "full", "equal", "empty"])
+    pattern = pattern or rng.choice(CELL_PATTERNS)
     chosen = {"one": idx[:1], "full": idx, "empty": []}.get(pattern, idx[:rng.randint(1, max(1, n - 1))])
     same = dy(rng, -8, 8, 4)
     ops = [{"c": c, "o": same if pattern == "equal" else dy(rng, -8, 8, 4)} for c in chosen]
@@ -613,7 +623,7 @@ def run_cvt1(case):
     return None
 
 
-def gen_cvt2(rng):
+def gen_cvt2(rng, pattern=None):
     n = rng.choice([1, 2, 3, 5, 8, 13, 20, 30]) if rng.random() < 0.6 else rng.randint(1, 30)
     lows = [dy(rng, -8, 8, 4), dy(rng, 16, 32, 4)]
     widths = [rng.choice([1, 2, 4]), rng.choice([1, 3, 8])]
@@ -624,7 +634,7 @@ def gen_cvt2(rng):
             cents.append(p)
     idx = list(range(n))
     rng.shuffle(idx)
-    pattern = rng.choice(["one", "sparse", "sparse", "sparse", "full", "equal", "empty"])
+    pattern = pattern or rng.choice(CELL_PATTERNS)
     chosen = {"one": idx[:1], "full": idx, "empty": []}.get(pattern, idx[:rng.randint(1, max(1, n - 1))])
     same = dy(rng, -8, 8, 4)
     ops = [{"c": c, "o": same if pattern == "equal" else dy(rng, -8, 8, 4)} for c in chosen]
@@ -757,11 +767,11 @@ def gen_points(rng, lows, widths, n, spill):
     return out
 
 
-def gen_sliding(rng):
+def gen_sliding(rng, pattern=None):
     dims = [rng.randint(1, 6), rng.randint(1, 6)]
     lows = [dy(rng, -8, 8, 4), dy(rng, 16, 32, 4)]
     widths = [rng.choice([1, 2, 4]), rng.choice([3, 8])]
-    pattern = rng.choice(["one", "few", "many", "many", "equal"])
+    pattern = pattern or rng.choice(POINT_PATTERNS)
     n = {"one": 1, "few": rng.randint(2, 4)}.get(pattern, rng.randint(5, 30))
     ops = gen_points(rng, lows, widths, n, spill=rng.random() < 0.2)
     if pattern == "equal":
@@ -786,6 +796,8 @@ def run_sliding(case):
     lo = [F(x) for x in a.lower_bounds]
     hi = [F(x) for x in a.upper_bounds]
     meas = [(F(m[0]), F(m[1])) for m in data["measures"]]
+    if any(not np.array_equal(b, np.linspace(r[0], r[1], d + 1)) for b, r, d in zip(a.boundaries, ranges, case["dims"])):
+        stat("sliding:boundaries-remapped")
     for k, v in enumerate(case["plots"]):
         tr = bool(v["tr"])
         vmin, vmax = effective_limits(v, objs)
@@ -858,10 +870,10 @@ def cmp_scatter(obs, line, where, lines, lims):
     return None
 
 
-def gen_prox(rng):
+def gen_prox(rng, pattern=None):
     lows = [dy(rng, -8, 8, 4), dy(rng, 16, 32, 4)]
     widths = [rng.choice([1, 2, 4]), rng.choice([3, 8])]
-    pattern = rng.choice(["one", "few", "many", "many", "equal"])
+    pattern = pattern or rng.choice(POINT_PATTERNS)
     n = {"one": 1, "few": rng.randint(2, 4)}.get(pattern, rng.randint(5, 25))
     ops = gen_points(rng, lows, widths, n, spill=False)
     if pattern == "equal":
@@ -940,12 +952,12 @@ def run_prox(case):
 # parallel axes plot
 
 
-def gen_parallel(rng):
+def gen_parallel(rng, pattern=None):
     md = rng.choice([1, 2, 2, 3, 3, 4])
     dims = [rng.randint(1, 4) for _ in range(md)]
     lows = [dy(rng, -8, 8, 4) for _ in range(md)]
     widths = [rng.choice([0.5, 1, 2, 4, 8]) for _ in range(md)]  # powers of two: the normalisation is exact
-    pattern = rng.choice(["one", "few", "many", "many", "equal"])
+    pattern = pattern or rng.choice(POINT_PATTERNS)
     n = {"one": 1, "few": rng.randint(2, 4)}.get(pattern, rng.randint(5, 16))
     ops = []
     for _ in range(n):
@@ -1089,6 +1101,7 @@ RUNNERS = {"grid1": run_grid, "grid2": run_grid, "cvt1": run_cvt1, "cvt2": run_c
 def run_case(case):
     if not case.get("ops") and case["kind"] in ("sliding", "prox", "parallel"):
         return None  # these are never generated empty (the shrinker may ask)
+    stat(f"content:{case['kind']}:{case.get('pattern')}")
     try:
         return RUNNERS[case["kind"]](case)
     finally:
@@ -1129,18 +1142,27 @@ def observations(ctx):
 def run(ctx):
     import matplotlib
     matplotlib.use("Agg")
-    budget = 5.0 if ctx.quick else 45.0
-    plan = [
-        ("grid2", lambda r: gen_grid(r, False), 45, 450),
-        ("grid1", lambda r: gen_grid(r, True), 45, 450),
-        ("cvt1", gen_cvt1, 45, 450),
-        ("cvt2", gen_cvt2, 30, 300),
-        ("sliding", gen_sliding, 35, 350),
-        ("prox", gen_prox, 30, 300),
-        ("parallel", gen_parallel, 30, 300),
+    plan = [  # stratum, generator, patterns, cases quick / thorough, time budget quick / thorough (s)
+        ("grid2", lambda r, p: gen_grid(r, False, p), CELL_PATTERNS, 36, 400, 8.0, 60.0),
+        ("grid1", lambda r, p: gen_grid(r, True, p), CELL_PATTERNS, 40, 400, 4.0, 35.0),
+        ("cvt1", gen_cvt1, CELL_PATTERNS, 36, 360, 4.0, 40.0),
+        ("cvt2", gen_cvt2, CELL_PATTERNS, 26, 260, 4.0, 45.0),
+        ("sliding", gen_sliding, POINT_PATTERNS, 30, 300, 4.0, 40.0),
+        ("prox", gen_prox, POINT_PATTERNS, 26, 260, 4.0, 40.0),
+        ("parallel", gen_parallel, POINT_PATTERNS, 22, 220, 5.0, 55.0),
     ]
-    for name, gen, nq, nt in plan:
-        ctx.explore(name, gen, run_case, ctx.n(nq, nt), nontrivial=nontrivial, time_budget=budget)
+    for name, gen, pats, nq, nt, bq, bt in plan:
+        counter = [0]
+
+        def gen_k(rng, gen=gen, pats=pats, counter=counter):
+            # explore() draws cases in index order, so the pattern is a function of the case index
+            pat = pats[counter[0] % len(pats)]
+            counter[0] += 1
+            return gen(rng, pat)
+        ctx.explore(name, gen_k, run_case, ctx.n(nq, nt), nontrivial=nontrivial,
+                    time_budget=bq if ctx.quick else bt)
+    for k, v in sorted(STATS.items()):
+        ctx.count("stat:" + k, v)
     try:
         observations(ctx)
     except Exception as e:  # pylint: disable=broad-except
